@@ -256,14 +256,19 @@ void TcpConnector::onConnectFail()
     //! 如果设置了尝试次数，且超过了尝试次数，则回调 connect_fail_cb_ 然后回到 State::kInited
     //! 否则继续进入重连等待延时状态
     if ((try_times_ > 0) && (conn_fail_times_ >= try_times_)) {
+        //! 必须先回到 State::kInited，再回调 connect_fail_cb_。
+        //! 此时 sp_write_ev_ 或 sp_delay_ev_ 已经被释放了，如果 state_ 还停留在 kConnecting 或 kReconnectDelay，
+        //! 那么用户在回调中调用 stop() 或 cleanup() 就会访问空指针，调用 start() 也会被拒绝。
+        //! (the write event / delay timer has already been given up here: with the old state still shown, stop() or
+        //!  cleanup() called from inside the callback dereferenced the null event, and start() was refused)
+        state_ = State::kInited;
+
         if (connect_fail_cb_) {
             ++cb_level_;
             connect_fail_cb_();
             --cb_level_;
         } else
             LogNotice("connector stoped");
-
-        state_ = State::kInited;
     } else
         enterReconnectDelayState();
 }
